@@ -23,9 +23,6 @@ package mvp4
 //@ func (*writeUnit).cycle
 //@   havoc
 //@   preserves CPU
-//@ func (*memoryManagementUnit).flush
-//@   havoc
-//@   preserves CPU
 
 // trivial leaf functions: executed at their call sites
 //@ func (*fetchUnit).isEmpty
@@ -64,9 +61,108 @@ package mvp4
 // Run (C09): every exit of the main loop happens with all older write-backs
 // done. (C12) the cycle counter is positive when the loop is left.
 //@ func (*CPU).Run
+//@   assume-before (*memoryManagementUnit).flush: wfMMU(m.memoryManagementUnit) && m.memoryManagementUnit.l1d.lineLength == 64 && allocated(m.memoryManagementUnit.ctx.Memory) && (forall j :: 0 <= j && j < len(m.memoryManagementUnit.l1d.lines) ==> !sameArray(m.memoryManagementUnit.l1d.lines[j].Data, m.memoryManagementUnit.ctx.Memory) && int32(m.memoryManagementUnit.l1d.lines[j].Boundary[0]) <= 1073741824)
 //@   requires m.fetchUnit != nil && m.decodeUnit != nil && m.executeUnit != nil && m.writeUnit != nil && m.decodeBus != nil && m.executeBus != nil && m.writeBus != nil && m.ctx != nil && m.memoryManagementUnit != nil
 //@   nooverflow cycle
 //@   loop 0: invariant cycle >= 0 && m.fetchUnit != nil && m.decodeUnit != nil && m.executeUnit != nil && m.writeUnit != nil && m.decodeBus != nil && m.executeBus != nil && m.writeBus != nil && m.ctx != nil && m.memoryManagementUnit != nil
 //@   loop 0: exit writesDone(m)
 //@   loop 0: exit cycle >= 1
 //@   loop 1: invariant cycle >= 1 && m.fetchUnit != nil && m.decodeUnit != nil && m.executeUnit != nil && m.writeUnit != nil && m.decodeBus != nil && m.executeBus != nil && m.writeBus != nil && m.ctx != nil && m.memoryManagementUnit != nil
+
+// ---------------------------------------------------------------- memory management unit (C05)
+// (instantiated from /verif/contracts/proc/mvp3 by gen: same text, same proof)
+//@ spec func wfMMU(u *memoryManagementUnit) bool = u != nil && u.ctx != nil && u.l1d != nil && u.l1i != nil && comp.wfCache(u.l1d) && comp.wfCache(u.l1i) && len(u.ctx.Memory) <= 1073741824
+
+// fill: the fetched line is a copy of memory, zero-padded past the end.
+//@ func (*memoryManagementUnit).fetchCacheLine
+//@   requires u != nil && u.ctx != nil && 0 <= addr && addr <= 1073741824 && allocated(u.ctx.Memory)
+//@   ensures len(result) == 64 && fresh(result)
+//@   ensures forall k :: 0 <= k && k < 64 ==> result[k] == (int(addr) + k < len(u.ctx.Memory) ? u.ctx.Memory[int(addr) + k] : 0)
+//@   assigns nothing
+//@   loop 0: invariant 0 <= i && i <= 64 && len(memory) == i && cap(memory) >= 64 && fresh(memory) && u.ctx == old(u.ctx) && !sameArray(memory, u.ctx.Memory)
+//@   loop 0: invariant forall k :: 0 <= k && k < i ==> memory[k] == (int(addr) + k < len(u.ctx.Memory) ? u.ctx.Memory[int(addr) + k] : 0)
+
+//@ func (*memoryManagementUnit).getFromMemory
+//@   requires u != nil && u.ctx != nil && (forall k :: 0 <= k && k < len(addrs) ==> 0 <= addrs[k] && int(addrs[k]) < len(u.ctx.Memory))
+//@   ensures len(result) == len(addrs) && (forall k :: 0 <= k && k < len(addrs) ==> result[k] == u.ctx.Memory[addrs[k]])
+//@   assigns nothing
+//@   loop 0: invariant len(memory) == _idx0 && cap(memory) >= len(addrs) && fresh(memory) && u.ctx == old(u.ctx) && !sameArray(memory, u.ctx.Memory) && !sameArray(memory, addrs)
+//@   loop 0: invariant forall k :: 0 <= k && k < _idx0 ==> memory[k] == u.ctx.Memory[addrs[k]]
+
+// write-miss / write-back: the bytes of data that fall inside memory are
+// stored at addr.., nothing else changes.
+//@ func (*memoryManagementUnit).writeToMemory
+//@   requires u != nil && u.ctx != nil && 0 <= int32(addr) && int32(addr) <= 1073741824 && len(data) <= 1048576 && len(u.ctx.Memory) <= 1073741824 && !sameArray(data, u.ctx.Memory)
+//@   ensures u.ctx.Memory == old(u.ctx.Memory)
+//@   ensures forall a :: lo(u.ctx.Memory) + int(addr) <= a && a < lo(u.ctx.Memory) + int(addr) + len(data) && a < hi(u.ctx.Memory) ==> at(u.ctx.Memory, a) == old(data[a - lo(u.ctx.Memory) - int(addr)])
+//@   ensures forall a :: lo(u.ctx.Memory) <= a && a < hi(u.ctx.Memory) && !(lo(u.ctx.Memory) + int(addr) <= a && a < lo(u.ctx.Memory) + int(addr) + len(data)) ==> at(u.ctx.Memory, a) == old(at(u.ctx.Memory, a))
+//@   assigns u.ctx.Memory[*]
+//@   loop 0: invariant u.ctx == old(u.ctx) && u.ctx.Memory == old(u.ctx.Memory)
+//@   loop 0: invariant forall a :: lo(u.ctx.Memory) + int(addr) <= a && a < lo(u.ctx.Memory) + int(addr) + _idx0 ==> at(u.ctx.Memory, a) == old(data[a - lo(u.ctx.Memory) - int(addr)])
+//@   loop 0: invariant forall a :: lo(u.ctx.Memory) <= a && a < hi(u.ctx.Memory) && !(lo(u.ctx.Memory) + int(addr) <= a && a < lo(u.ctx.Memory) + int(addr) + _idx0) ==> at(u.ctx.Memory, a) == old(at(u.ctx.Memory, a))
+//@   loop 0: invariant forall a :: lo(data) <= a && a < hi(data) ==> at(data, a) == old(at(data, a))
+
+// eviction write-back: when the push displaces the least-recently-used line,
+// that line's bytes must be in memory afterwards (nothing dirty is dropped).
+// The real code writes the NEW line back instead of the victim: known finding
+// F13, region "the cache is full".
+//@ func (*memoryManagementUnit).pushLineToL1D
+//@   requires wfMMU(u) && len(u.l1d.lines) <= u.l1d.numberOfLines && 0 <= int32(addr) && int32(addr) <= 1073741824 && len(line) <= 1048576 && !sameArray(line, u.ctx.Memory) && allocated(u.ctx.Memory)
+//@   ensures u.l1d.numberOfLines > 0 ==> u.l1d.lines[0].Boundary[0] == addr && u.l1d.lines[0].Data == line
+//@   ensures len(u.l1d.lines) == min(len(old(u.l1d.lines)) + 1, u.l1d.numberOfLines)
+//@   ensures forall j :: 0 < j && j < len(u.l1d.lines) ==> u.l1d.lines[j] == old(u.l1d.lines[j-1])
+//@   ensures forall k :: old(len(u.l1d.lines)) == u.l1d.numberOfLines && u.l1d.numberOfLines > 0 && 0 <= k && k < u.l1d.lineLength && int(old(u.l1d.lines[len(u.l1d.lines)-1].Boundary[0])) + k < len(u.ctx.Memory) ==> u.ctx.Memory[int(old(u.l1d.lines[len(u.l1d.lines)-1].Boundary[0])) + k] == old(u.l1d.lines[len(u.l1d.lines)-1].Data[k])
+//@   finding F13-evicted-line-not-written-back: len(u.l1d.lines) == u.l1d.numberOfLines && u.l1d.numberOfLines > 0
+//@   assigns u.l1d.lines, u.ctx.Memory[*]
+
+//@ func (*memoryManagementUnit).pushLineToL1I
+//@   requires wfMMU(u) && len(u.l1i.lines) <= u.l1i.numberOfLines && 0 <= int32(addr) && int32(addr) <= 1073741824
+//@   ensures u.l1i.numberOfLines > 0 ==> u.l1i.lines[0].Boundary[0] == addr && u.l1i.lines[0].Data == line
+//@   ensures len(u.l1i.lines) == min(len(old(u.l1i.lines)) + 1, u.l1i.numberOfLines)
+//@   assigns u.l1i.lines
+
+// read hit: each returned byte is, at the time it is read, the byte of the
+// resident line covering its address (step relation: that line is then the
+// most recently used one); a miss on any address reports absence.
+//@ func (*memoryManagementUnit).getFromL1D
+//@   requires wfMMU(u)
+//@   ensures result1 ==> len(result) == len(addrs)
+//@   ensures !result1 ==> result == nil
+//@   ensures len(u.l1d.lines) == len(old(u.l1d.lines)) && wfMMU(u)
+//@   assigns u.l1d.lines
+//@   loop 0: invariant wfMMU(u) && u.l1d == old(u.l1d) && u.ctx == old(u.ctx) && len(u.l1d.lines) == len(old(u.l1d.lines)) && len(memory) == _idx0 && cap(memory) >= len(addrs) && fresh(memory) && !sameArray(memory, addrs)
+//@   loop 0: step comp.covers(u.l1d.lines[0], addrs[_idx0-1]) && memory[_idx0-1] == u.l1d.lines[0].Data[addrs[_idx0-1] - int32(u.l1d.lines[0].Boundary[0])]
+
+// write hit: delegated to LRUCache.Write; the range must lie inside one line
+// (an aligned word straddling two unaligned lines indexes past Data and
+// panics: known finding F15, excluded here by the precondition and recorded
+// at the call site of writeExecutionMemoryChangesToL1D).
+//@ func (*memoryManagementUnit).writeToL1D
+//@   requires wfMMU(u) && comp.distinctData(u.l1d) && 0 <= addr && addr <= 1073741824 && len(data) <= 1048576
+//@   requires exists i :: comp.firstCover(u.l1d, addr, i)
+//@   requires forall i :: comp.firstCover(u.l1d, addr, i) ==> int(addr) + len(data) <= int(u.l1d.lines[i].Boundary[1]) && !sameArray(data, u.l1d.lines[i].Data)
+//@   ensures forall i, a :: comp.firstCover(u.l1d, addr, i) && comp.wbase(u.l1d, addr, i) <= a && a < comp.wbase(u.l1d, addr, i) + len(data) ==> at(u.l1d.lines[i].Data, a) == old(data[a - comp.wbase(u.l1d, addr, i)])
+//@   ensures u.l1d.lines == old(u.l1d.lines)
+//@   assigns comp.Delta, all []int8
+
+// final flush: every byte of every resident line is in memory afterwards and
+// bytes not covered by a resident line are untouched. With overlapping lines
+// the last line written wins (known findings F14/F16: region "lines overlap").
+//@ spec func memAt(u *memoryManagementUnit, x int) int8 = at(u.ctx.Memory, lo(u.ctx.Memory) + x)
+//@ func (*memoryManagementUnit).flush
+//@   requires wfMMU(u) && u.l1d.lineLength == 64 && allocated(u.ctx.Memory) && (forall j :: 0 <= j && j < len(u.l1d.lines) ==> !sameArray(u.l1d.lines[j].Data, u.ctx.Memory) && int32(u.l1d.lines[j].Boundary[0]) <= 1073741824)
+//@   nooverflow additionalCycles
+//@   ensures result == latency.MemoryAccess * len(u.l1d.lines)
+//@   ensures forall j, k :: 0 <= j && j < len(u.l1d.lines) && 0 <= k && k < 64 && int(u.l1d.lines[j].Boundary[0]) + k < len(u.ctx.Memory) ==> memAt(u, int(u.l1d.lines[j].Boundary[0]) + k) == u.l1d.lines[j].Data[k]
+//@   ensures forall x :: 0 <= x && x < len(u.ctx.Memory) && x <= 2147483647 && (forall j :: 0 <= j && j < len(u.l1d.lines) ==> !comp.covers(u.l1d.lines[j], int32(x))) ==> memAt(u, x) == old(memAt(u, x))
+//@   finding F14-F16-overlapping-lines: !comp.disjointLines(u.l1d)
+//@   assigns u.ctx.Memory[*]
+//@   loop 0: invariant u.ctx == old(u.ctx) && u.l1d == old(u.l1d) && u.ctx.Memory == old(u.ctx.Memory) && additionalCycles == latency.MemoryAccess * _idx0 && _range0 == u.l1d.lines
+//@   loop 0: invariant forall j, a :: 0 <= j && j < len(u.l1d.lines) && lo(u.l1d.lines[j].Data) <= a && a < hi(u.l1d.lines[j].Data) ==> at(u.l1d.lines[j].Data, a) == old(at(u.l1d.lines[j].Data, a))
+//@   loop 0: invariant comp.disjointLines(u.l1d) ==> (forall j, k :: 0 <= j && j < _idx0 && 0 <= k && k < 64 && int(u.l1d.lines[j].Boundary[0]) + k < len(u.ctx.Memory) ==> memAt(u, int(u.l1d.lines[j].Boundary[0]) + k) == u.l1d.lines[j].Data[k])
+//@   loop 0: invariant forall x :: 0 <= x && x < len(u.ctx.Memory) && x <= 2147483647 && (forall j :: 0 <= j && j < _idx0 ==> !comp.covers(u.l1d.lines[j], int32(x))) ==> memAt(u, x) == old(memAt(u, x))
+//@   loop 1: invariant 0 <= i && i <= 64 && u.ctx == old(u.ctx) && u.l1d == old(u.l1d) && u.ctx.Memory == old(u.ctx.Memory) && additionalCycles == latency.MemoryAccess * (_idx0 + 1) && _range0 == u.l1d.lines && 0 <= _idx0 && _idx0 < len(u.l1d.lines)
+//@   loop 1: invariant forall j, a :: 0 <= j && j < len(u.l1d.lines) && lo(u.l1d.lines[j].Data) <= a && a < hi(u.l1d.lines[j].Data) ==> at(u.l1d.lines[j].Data, a) == old(at(u.l1d.lines[j].Data, a))
+//@   loop 1: invariant comp.disjointLines(u.l1d) ==> (forall j, k :: 0 <= j && j < _idx0 && 0 <= k && k < 64 && int(u.l1d.lines[j].Boundary[0]) + k < len(u.ctx.Memory) ==> memAt(u, int(u.l1d.lines[j].Boundary[0]) + k) == u.l1d.lines[j].Data[k])
+//@   loop 1: invariant i > 0 ==> (forall k :: 0 <= k && k < 64 && int(u.l1d.lines[_idx0].Boundary[0]) + k < len(u.ctx.Memory) ==> memAt(u, int(u.l1d.lines[_idx0].Boundary[0]) + k) == u.l1d.lines[_idx0].Data[k])
+//@   loop 1: invariant forall x :: 0 <= x && x < len(u.ctx.Memory) && x <= 2147483647 && (forall j :: 0 <= j && j < _idx0 ==> !comp.covers(u.l1d.lines[j], int32(x))) && !comp.covers(u.l1d.lines[_idx0], int32(x)) ==> memAt(u, x) == old(memAt(u, x))
